@@ -16,6 +16,12 @@ def c08_ops(rng, tier):
             L.append("scd %d %d %d" % (y, m, d))
         else:
             L.append("sch %d %d %d %d %d %d" % (y, m, d, rng.choice([0, 1, 12, 22, 23, rng.randint(0, 23)]), rng.randint(0, 59), rng.randint(0, 59)))
+    # sexagenary months as values: pillar, index in year and stepping, all 12 months of sampled years (every year stem occurs)
+    for _ in range(40 if tier == "quick" else 600):
+        y = rng.randint(1, 9990)
+        for k in range(12):
+            L.append("c08.scm %d %d 0" % (y, k))
+            L.append("c08.scm %d %d %d" % (y, k, rng.choice([1, -1, 12, -12, 11, 13, rng.randint(-200, 200)])))
     return L
 
 
@@ -68,7 +74,7 @@ PROP = {
     "audit_files": ["Tyme/Lemmas/Pillar.lean", "Tyme/Facts/Windows.lean", "Tyme/Lemmas/Cycle.lean", "Tyme/Model/SixtyCycle.lean", "Tyme/Model/Lunar.lean", "Tyme/Model/Term.lean"],
     "gen": [gen_eph],
     "streams": [
-        {"name": "c08.days", "args_thorough": ["all"]},   # year and month pillar of every civil date (day view)
+        {"name": "c08.days", "args_thorough": ["all"], "extra_years": True},   # year and month pillar of every civil date (day view)
         {"name": "c09.hours"},                            # all 60 day pillars x 24 hours (instant view)
     ],
     "ops": c08_ops,
